@@ -24,6 +24,7 @@ def tokJson : Tok → Json
   | .failAgain n k => mkArr [Json.str "failAgain", toJson n, Json.str (Driver.Run.failKindStr k)]
   | .errSec n => mkArr [Json.str "errSec", toJson n]
   | .outSec n => mkArr [Json.str "outSec", toJson n]
+  | .aborted => mkArr [Json.str "aborted"]
 
 def resStr : Option JRes → Json
   | none => Json.null
@@ -69,21 +70,34 @@ def handle (j : Json) : Json :=
     let exit := jnat j "exit"
     let errS := (j.getObjValAs? String "err").toOption.getD ""
     let kind := kindOf (jstr j "reporter")
+    -- reporter options: --failure-verbosity, global verbosity (+ forced by -v on the command line), per-task verbosity
+    let taskV : List (Option Nat) := (jarr j "taskVerb").map fun x => (x.getNat?).toOption
+    let opts : RepOpts :=
+      { failVerb := jnat j "failVerb"
+        verb := fun t => effVerb (jbool j "forceVerb") (jnat j "globalVerb") ((taskV.getD t none))
+        runtimeErr := jbool j "runtimeErr" }
     let fwd := inp.runner = .process
     let nf := tr.reverse
     let complete := tr.getLast? == some Ev.complete
     let mOrd := repOrd true fwd inp.noAct nf
-    let mExec := !complete || execIffStart inp.noAct n tr
+    -- a run aborted by a reported runtime error (InvalidTask raised while the action objects of a task are created) may
+    -- leave that task announced although its actions never started, or (process runner) a task in flight whose
+    -- forwarded report was still on the queue: only tasks WITH a final report are bound by the iff then
+    let mExec := !complete || execIffStart inp.noAct n tr ||
+      (opts.runtimeErr && (List.range n).all fun t =>
+        inp.noAct t || tr.countP (Ev.isExecOf t) == tr.countP (Ev.isStartOf t) ||
+        (!tr.any (Ev.isTerminalOf t) && tr.countP (Ev.isExecOf t) ≤ 1 && tr.countP (Ev.isStartOf t) ≤ 1))
     let mTruth := truthOrd inp n nf
-    let mFin := !(complete && exit ≤ 2) || finReported n tr
+    let mFin := !(complete && exit ≤ 2) || opts.runtimeErr || finReported n tr
     let halt : Halt := if errS = "" then .none else if errS = "cyclic" then .cyclic else .crash
-    let expExit := exitOf halt (failKinds tr)
+    -- `run_all`: `except InvalidTask: reporter.runtime_error(..); final_result = ERROR`
+    let expExit := if opts.runtimeErr && errS = "" then 2 else exitOf halt (failKinds tr)
     let mExit := exit == expExit
     let doc := parseDoc j
     let mJson := !jhas j "doc" || jsonOK n tr doc
     -- exit code 0/1/2 of a run that was not stopped by a reported failure: every member of the closure of the selection
     -- has its final report (`monC02AllProcessed`; an error that cut the run short must show in the exit code)
-    let mAll := monC02AllProcessed inp n tr exit
+    let mAll := opts.runtimeErr || monC02AllProcessed inp n tr exit
     Json.mkObj [
       ("monitor", Json.mkObj [("C19_report_order", Json.bool mOrd), ("C19_exec_iff_start", Json.bool mExec),
         ("C19_truth", Json.bool mTruth), ("C19_end_reported", Json.bool mFin), ("C19_exit", Json.bool mExit),
@@ -97,7 +111,9 @@ def handle (j : Json) : Json :=
       ("firstBadTruth", optNat (firstBad (truthOK inp n) nf)),
       ("expectedExit", toJson expExit),
       ("finalFold", toJson (finalEv nf)),
-      ("render", mkArr ((render kind inp.noAct tr).map tokJson)),
+      -- a task whose action objects cannot be created ("lazyBad"): `ConsoleReporter.execute_task` evaluates
+      -- `task.actions` before it writes, so nothing is printed for it (like for a task without actions)
+      ("render", mkArr ((render kind opts (fun t => inp.noAct t || (jnats j "lazyBad").contains t) tr).map tokJson)),
       ("json", match jsonOf tr with
                | some l => mkArr (l.map joutJson)
                | none => Json.str "raises")]
